@@ -49,6 +49,7 @@ type cnTxSpec struct {
 	Gov      string `json:"gov,omitempty"`      // regruntime: entity | runtime
 	Shape    string `json:"shape,omitempty"`    // regruntime: "g<workers>b<backups>m<max nodes per entity, 0 = unset>p<min pool: workers+this>v<validator-set constraint 0/1>s<allowed stragglers>"
 	Slash    string `json:"slash,omitempty"`    // regruntime: "<amount>:<runtime share % for equivocation>:<runtime share % for incorrect results>" (per-runtime slashing)
+	Live     string `json:"live,omitempty"`     // regruntime: liveness evaluation "<min rounds>:<min live percent>:<tolerated failures>:<slash amount>"
 	InMsgs   string `json:"inmsgs,omitempty"`   // regruntime: "<max incoming messages>:<minimum incoming message fee>"
 	Huge     bool   `json:"huge,omitempty"`     // rhcommit: the commitment declares 2^26 processed incoming messages
 	MsgFee   int64  `json:"msgfee,omitempty"`   // submitmsg: the fee sent into the runtime with the message (spec.Amount = tokens)
@@ -326,6 +327,18 @@ func (n *cnNet) buildTx(spec *cnTxSpec, rng *rand.Rand) ([]byte, error) {
 			}
 			rt.Staking.RewardSlashEquvocationRuntimePercent = uint8(pe)
 			rt.Staking.RewardSlashBadResultsRuntimePercent = uint8(pb)
+		}
+		if spec.Live != "" {
+			// liveness evaluation at the end of an epoch: "<min live rounds for evaluation>:<min live percent>:<tolerated failures>:<slash amount>"
+			var mn, pct, mf, amt int
+			if _, err := fmt.Sscanf(spec.Live, "%d:%d:%d:%d", &mn, &pct, &mf, &amt); err != nil {
+				return nil, fmt.Errorf("bad liveness spec %q", spec.Live)
+			}
+			rt.Executor.MinLiveRoundsForEvaluation, rt.Executor.MinLiveRoundsPercent, rt.Executor.MaxLivenessFailures = uint64(mn), uint8(pct), uint8(mf)
+			if rt.Staking.Slashing == nil {
+				rt.Staking.Slashing = map[staking.SlashReason]staking.Slash{}
+			}
+			rt.Staking.Slashing[staking.SlashRuntimeLiveness] = staking.Slash{Amount: qq(int64(amt)), FreezeInterval: 1}
 		}
 		if spec.InMsgs != "" {
 			var mx, mf int
